@@ -813,6 +813,11 @@ func (i *Inc) handle(m message.Message) {
 				u.recv[t.StreamChunk.SequenceNumber] = map[int]bool{}
 			}
 			u.recv[t.StreamChunk.SequenceNumber][i.c] = true
+			// every receipt is owed an acknowledgement: a chunk that arrives again after its result was sent (the
+			// retransmission of a chunk whose first copy got through) counts as unacknowledged for the cooperative tail
+			if u.acked[t.StreamChunk.SequenceNumber] != nil {
+				delete(u.acked[t.StreamChunk.SequenceNumber], i.c)
+			}
 		}
 		auto := b.ackMode == "auto" && !b.silent
 		aliasName := func(a uint32) string {
